@@ -31,11 +31,11 @@ func init() {
 		Level: "exploration",
 		Rule: "cases: (filter) every handler specification of a 27-element set (no filter, '*', every event type, type lists, user:NAME, query:NAME, 'user:', 'bogus') x 2 script texts x 23 events (5 member types, 9 user-event names, 9 query names) through the real ParseEventScript/EventFilter.Invoke; non-trivial = specification with a filter. " +
 			"(handle) groups of 3 configured handlers x 9 events through the real ScriptEventHandler.HandleEvent executing /bin/sh marker scripts, plus a script reload; non-trivial = at least one handler must run and one must not. " +
-			"(invoke) real invokeEventScript executing /bin/sh scripts that dump /proc/$$/environ and stdin: node names x tag sets x events; all member lists up to length 2 (thorough 3) over a pool of members with tabs/newlines/'='/','/non-ASCII in names, roles and tags, IPv4/IPv6/nil addresses, for all five member event types; user-event names x payloads (nil, empty, with/without trailing newline, embedded newlines, NUL/0xff bytes, 9 KiB) x Lamport times {0,1,42,2^64-1}; non-trivial = case with a character that needs sanitising/escaping, a non-empty payload or more than one member. " +
+			"(invoke) real invokeEventScript executing /bin/sh scripts that dump /proc/$$/environ and stdin: node names x tag sets x events (quick: two of the five events per pair); all member lists up to length 2 (thorough 3; quick: a cycle of pairs) over a pool of members with tabs/newlines/'='/','/non-ASCII in names, roles and tags, IPv4/IPv6/nil addresses, for all five member event types; user-event names x payloads (nil, empty, with/without trailing newline, embedded newlines, NUL/0xff bytes, 9 KiB) x Lamport times {0,1,42,2^64-1} (quick: 42, the others with the name x tag-set cases); non-trivial = case with a character that needs sanitising/escaping, a non-empty payload or more than one member. " +
 			"(query) real *serf.Query delivered to a real Serf node (inert memberlist) answered by a script whose output is one of {0,1,2, largest size fitting the response limit -1/+0/+1, 1024, 8191, 8192, 8193, 12000, 20000} bytes on stdout/stderr/both with exit status {0,1,3} for response limits {1024, 20000, 8200}; the response packet is read off the transport; non-trivial = output non-empty",
 		Assumptions: []string{
 			"/bin/sh and /proc are available; the script observes its environment through /proc/$$/environ (exact bytes, NUL separated) and its standard input through cat",
-			"names, tag names and tag values without NUL bytes (a process environment cannot carry them)",
+			"a process environment cannot carry NUL bytes: for names/tag values containing one only 'the matching handler runs' is demanded (scenario invoke/nul-bytes); all other cases are NUL-free",
 			"member/user events are invoked outside the controlled scheduler (real goroutines, real time); queries inside one controlled run in which the stdin-writer goroutine is scheduled before the script is started (payloads are far below the pipe capacity)",
 			"'user:' / 'query:' with an empty name is left open for user events / queries (must not match anything else); a specification that names the same event twice may run the script more than once (only run / not run is compared)",
 			"order of the tags inside the fourth stdin field is not specified (any permutation accepted); with two tags whose sanitised names collide either value is accepted",
@@ -396,6 +396,10 @@ func c27checkObs(self serf.Member, e serf.Event, o c27obs) (sig, msg string) {
 
 var c27logger = log.New(io.Discard, "", 0)
 
+// c27nulSig: a NUL byte in a value that is exported to the script's environment
+// makes exec refuse to start the script.
+const c27nulSig = "invoke: script-not-started(NUL byte in environment value)"
+
 // c27invoke runs the real invokeEventScript outside the scheduler.
 func c27invoke(script string, self serf.Member, e serf.Event) (err error, pan string) {
 	defer func() {
@@ -599,13 +603,16 @@ func c27handle(ctx *vc.Ctx, box *c27box, idx *int) {
 		scn.Case(out, must > 0 && mustNot > 0)
 	}
 	for gi, g := range groups {
-		for _, e := range evs {
+		for ei, e := range evs {
 			*idx++
 			if !ctx.Mine(*idx) {
 				continue
 			}
 			h := &agent.ScriptEventHandler{SelfFunc: func() serf.Member { return self }, Scripts: build(g), Logger: c27logger}
 			eval(g, h, e, "configured")
+			if !ctx.Thorough() && (gi+ei)%3 != 0 {
+				continue // quick: the reload for a third of the cases
+			}
 			// reload: the handlers of the next group replace the configured ones
 			g2 := groups[(gi+1)%len(groups)]
 			h.UpdateScripts(build(g2))
@@ -668,9 +675,12 @@ func c27invokeEnv(ctx *vc.Ctx, box *c27box, idx *int) {
 		serf.UserEvent{Name: "na me=\n\t", LTime: serf.LamportTime(^uint64(0)), Payload: nil},
 		&serf.Query{Name: "q=1\n", LTime: 77, Payload: []byte("in\n")},
 	}
-	for _, name := range c27selfNames(ctx.Thorough()) {
-		for _, tags := range c27selfTags(ctx.Thorough()) {
-			for _, e := range evs {
+	for ni, name := range c27selfNames(ctx.Thorough()) {
+		for ti, tags := range c27selfTags(ctx.Thorough()) {
+			for ei, e := range evs {
+				if !ctx.Thorough() && ei != (ni+ti)%len(evs) && ei != (ni+ti+2)%len(evs) {
+					continue // quick: two of the five events per (name, tags) pair, rotating
+				}
 				*idx++
 				if !ctx.Mine(*idx) {
 					continue
@@ -681,6 +691,38 @@ func c27invokeEnv(ctx *vc.Ctx, box *c27box, idx *int) {
 		}
 	}
 	scn.Sample(`self tags {"a-b":"1","dc-1":"east"} -> SERF_TAG_A_B=1 SERF_TAG_DC_1=east; SERF_SELF_ROLE=""`)
+	// NUL bytes: an environment cannot carry them, so the values are left open;
+	// what the statement still demands is that the matching handler runs.
+	nul := ctx.Scn("invoke/nul-bytes", "cases")
+	type nc struct {
+		what string
+		self serf.Member
+		ev   serf.Event
+	}
+	for _, c := range []nc{
+		{"tag value", serf.Member{Name: "n", Tags: map[string]string{"k": "a\x00b"}}, evs[0]},
+		{"tag value", serf.Member{Name: "n", Tags: map[string]string{"role": "\x00"}}, evs[2]},
+		{"tag name", serf.Member{Name: "n", Tags: map[string]string{"k\x00": "v"}}, evs[2]},
+		{"user event name", serf.Member{Name: "n", Tags: map[string]string{}}, serf.UserEvent{Name: "a\x00b", LTime: 5}},
+	} {
+		*idx++
+		if !ctx.Mine(*idx) {
+			continue
+		}
+		box.clear()
+		err, pan := c27invoke(box.dumpScript(), c.self, c.ev)
+		o := box.read()
+		switch {
+		case pan != "":
+			ctx.Violation(nul.Name, "invoke: panic", fmt.Sprintf("%s: panic %s", c27describe(c.self, c.ev), pan), nil)
+			nul.Case("panic", true)
+		case !o.ran:
+			ctx.Violation(nul.Name, c27nulSig, fmt.Sprintf("%s: NUL byte in the %s: the handler script was not started (%v), so no configured handler runs for this event", c27describe(c.self, c.ev), c.what, err), nil)
+			nul.Case("not-started", true)
+		default:
+			nul.Case("ran", true)
+		}
+	}
 }
 
 // c27one executes the dump script (no output, so no query response is attempted).
@@ -758,8 +800,11 @@ func c27invokeMembers(ctx *vc.Ctx, box *c27box, idx *int) {
 	for _, a := range pool {
 		lists = append(lists, []serf.Member{a})
 	}
-	for _, a := range pool {
-		for _, b := range pool {
+	for i, a := range pool {
+		for j, b := range pool {
+			if !ctx.Thorough() && j != (i+1)%len(pool) && !(i == 2 && j == 2) {
+				continue // quick: a cycle of pairs plus one repeated member
+			}
 			lists = append(lists, []serf.Member{a, b})
 		}
 	}
@@ -806,14 +851,17 @@ func c27invokePayload(ctx *vc.Ctx, box *c27box, idx *int) {
 	scn := ctx.Scn("invoke/user-payloads", "cases")
 	self := serf.Member{Name: "self", Addr: net.IPv4(10, 0, 0, 1), Tags: map[string]string{"role": "lb", "dc": "x"}}
 	names := []string{"deploy", "", "a b=c\n\t"}
-	lts := []uint64{0, 42}
+	lts := []uint64{42}
 	if ctx.Thorough() {
 		names = append(names, "user:deploy", "ü", strings.Repeat("e", 200))
 		lts = []uint64{0, 1, 42, ^uint64(0)}
 	}
-	for _, n := range names {
-		for _, p := range c27payloads(ctx.Thorough()) {
+	for ni, n := range names {
+		for pi, p := range c27payloads(ctx.Thorough()) {
 			for _, lt := range lts {
+				if !ctx.Thorough() && ni > 0 && pi%3 != ni-1 {
+					continue // quick: every payload with the first name, a third with each other name
+				}
 				*idx++
 				if !ctx.Mine(*idx) {
 					continue
@@ -846,6 +894,18 @@ func c27out(n int) []byte {
 	b := make([]byte, n)
 	for i := range b {
 		b[i] = byte(40 + (i*7+i/251)%83) // printable, no quote characters
+		switch {
+		case i%17 == 16:
+			b[i] = '\n'
+		case i%23 == 22:
+			b[i] = ' '
+		}
+	}
+	if n > 0 && n%2 == 0 {
+		b[n-1] = '\n' // half of the outputs end in a newline, like most commands
+	}
+	if n > 2 {
+		b[0] = '\t'
 	}
 	return b
 }
@@ -889,6 +949,9 @@ func c27queries(ctx *vc.Ctx, box *c27box, idx *int) {
 				for _, st := range streams {
 					if st == "both" && n < 4 {
 						continue
+					}
+					if !ctx.Thorough() && ex != 0 && st != "out" {
+						continue // quick: failing scripts only with output on stdout
 					}
 					cases = append(cases, c27qcase{limit: limit, outLen: n, exit: ex, stream: st, name: "load", payload: []byte("in"), tags: map[string]string{"role": "web"}})
 				}
